@@ -76,7 +76,7 @@ Qed.
 
 (* ---- the frame for templates and memoised calls *)
 Lemma sc_instantiate_memo fuel :
-  (forall v b r, pres Qsc (instantiate fuel v b r)) /\ (forall m k, pres Qsc (memo_call fuel m k)).
+  (forall p v b r, pres Qsc (instantiate fuel p v b r)) /\ (forall p m k, pres Qsc (memo_call fuel p m k)).
 Proof.
   induction fuel as [|f [IH1 IH2]]; (split; intros; simpl; [go_sc|]).
   - go_sc.
@@ -86,18 +86,19 @@ Proof.
     unfold bindM at 1. rewrite (ro_run _ s (ro_memo_lookup mm k)).
     destruct ((memo_lookup mm k s).1) as [[n|]| |]; try reflexivity.
     unfold bindM at 1.
-    assert (pres Qsc (user_call;;; emit (EvMemoFn m k);;; instantiate f (VInt k) (m_body mm) (m_ret mm))) as Hbody by go_sc.
+    assert (pres Qsc (user_call;;; emit (EvMemoFn m k);;; instantiate f p (VInt k) (m_body mm) (m_ret mm))) as Hbody by go_sc.
     pose proof (Qsc_within_scope (m_scope mm) _ s Hbody (memo_scope_in_play _ _ _ Em)) as HQ.
     destruct (within_scope (m_scope mm) _ s) as [[[n|]| |] s3]; cbn [snd] in HQ; try exact HQ.
-    etrans; [exact HQ|]. apply (pres_bind Qsc (memo_store m k n)); [apply sc_memo_store|]. intros _. apply (pres_ret Qsc).
+    etrans; [exact HQ|]. apply (pres_bind Qsc (memo_store m k n)); [apply sc_memo_store|]. intros _.
+    apply (pres_bind Qsc); [apply (pres_modify Qsc); intros ?; apply Qsc_collect|]. intros _. apply (pres_ret Qsc).
 Qed.
-Lemma sc_instantiate fuel v b r : pres Qsc (instantiate fuel v b r). Proof. apply sc_instantiate_memo. Qed.
-Lemma sc_memo_call fuel m k : pres Qsc (memo_call fuel m k). Proof. apply sc_instantiate_memo. Qed.
+Lemma sc_instantiate fuel p v b r : pres Qsc (instantiate fuel p v b r). Proof. apply sc_instantiate_memo. Qed.
+Lemma sc_memo_call fuel p m k : pres Qsc (memo_call fuel p m k). Proof. apply sc_instantiate_memo. Qed.
 
 (* ---- what a memoised call does *)
-Lemma memo_call_hit f m k s mm n x :
+Lemma memo_call_hit f p m k s mm n x :
   memos s !! m = Some mm -> assoc_find k (m_table mm) = Some n -> nodes s !! n = Some x -> n_live x = true ->
-  memo_call (S f) m k s = (Ok n, s).
+  memo_call (S f) p m k s = (Ok n, s).
 Proof.
   intros Em Ek Hx Hl. cbn [memo_call]. unfold bindM at 1, get at 1. cbv beta iota. rewrite Em.
   unfold bindM at 1, memo_lookup. rewrite Ek. unfold bindM at 1, get_node, bindM, get. cbv beta iota. rewrite Hx.
@@ -127,12 +128,14 @@ Proof.
   unfold user_call, bindM, modify, get. cbv beta iota. case_bool_decide; [done|]. unfold ret. intros Hr. by simplify_eq.
 Qed.
 
-Lemma memo_call_miss f m k s mm n s' :
-  memos s !! m = Some mm -> memo_miss s mm k -> memo_call (S f) m k s = (Ok n, s') ->
+Lemma memo_call_miss f p m k s mm n s' :
+  memos s !! m = Some mm -> memo_miss s mm k -> memo_call (S f) p m k s = (Ok n, s') ->
   (* the underlying function ran, in the scope weak_memoize_fn was called in *)
   (exists s1 s2, cur_scope s1 = m_scope mm /\ events s1 = EvMemoFn m k :: events s /\ nodes s1 = nodes s /\ memos s1 = memos s
-     /\ instantiate f (VInt k) (m_body mm) (m_ret mm) s1 = (Ok (Some n), s2)
-     /\ s' = s2 <| cur_scope := cur_scope s |> <| memos := alter (fun mm => mm <| m_table := assoc_set k n (m_table mm) |>) m (memos s2) |>).
+     /\ instantiate f p (VInt k) (m_body mm) (m_ret mm) s1 = (Ok (Some n), s2)
+     (* the key is bound to the result, and the function's own locals are dropped *)
+     /\ s' = (collect (ONode n :: (ONode <$> p))
+                (s2 <| cur_scope := cur_scope s |> <| memos := alter (fun mm => mm <| m_table := assoc_set k n (m_table mm) |>) m (memos s2) |>)).2).
 Proof.
   intros Em Hmiss H. cbn [memo_call] in H. unfold bindM at 1, get at 1 in H. cbv beta iota in H. rewrite Em in H.
   unfold bindM at 1 in H. rewrite (memo_lookup_miss _ _ _ Hmiss) in H.
@@ -144,13 +147,13 @@ Proof.
   apply bindM_ok' in Eb as (u1 & sa & Hu & Eb). apply user_call_ok in Hu as ->.
   apply bindM_ok' in Eb as (u2 & sb & He & Eb). unfold emit, modify in He. simplify_eq.
   destruct r as [n'|]; [|done].
-  unfold memo_store, bindM, modify, ret in H. simplify_eq.
+  unfold memo_store, collect, bindM, modify, ret in H. simplify_eq.
   eexists _, s2. split_and!; [| | | |exact Eb|]; done.
 Qed.
 
 (* every node a memoised call creates belongs to a scope in which some weak_memoize_fn was called *)
-Lemma memo_call_new_nodes_scope fuel m k s :
-  let s' := (memo_call fuel m k s).2 in
+Lemma memo_call_new_nodes_scope fuel p m k s :
+  let s' := (memo_call fuel p m k s).2 in
   forall i x, length (nodes s) <= i -> nodes s' !! i = Some x -> n_created_in x ∈ memo_scopes s.
 Proof.
   destruct fuel as [|f]; cbn zeta; [intros i x Hi Hx; apply lookup_lt_Some in Hx; simpl in Hx; lia|].
@@ -160,20 +163,25 @@ Proof.
   destruct ((memo_lookup mm k s).1) as [[n|]| |]; try (intros i x Hi Hx; apply lookup_lt_Some in Hx; simpl in Hx; lia).
   unfold bindM at 1. rewrite within_scope_run.
   destruct ((scope_is_valid (m_scope mm) s).1) as [[|]| |]; try (intros i x Hi Hx; apply lookup_lt_Some in Hx; simpl in Hx; lia).
-  assert (pres Qsc (user_call;;; emit (EvMemoFn m k);;; instantiate f (VInt k) (m_body mm) (m_ret mm))) as Hbody.
+  assert (pres Qsc (user_call;;; emit (EvMemoFn m k);;; instantiate f p (VInt k) (m_body mm) (m_ret mm))) as Hbody.
   { apply (pres_bind Qsc); [unfold user_call; go_sc|]. intros _. apply (pres_bind Qsc); [go_sc|]. intros _. apply sc_instantiate. }
   specialize (Hbody (s <| cur_scope := m_scope mm |>)).
   assert (forall sc, sc ∈ in_play (s <| cur_scope := m_scope mm |>) -> sc ∈ memo_scopes s) as Hsub.
   { intros sc Hsc. unfold in_play in Hsc. simpl in Hsc. apply elem_of_cons in Hsc as [->|Hsc]; [|done].
     apply elem_of_list_fmap. exists mm. split; [done|]. by eapply elem_of_list_lookup_2. }
   destruct Hbody as (_&_&_&_&_&N&_). simpl in N.
-  destruct ((user_call;;; emit (EvMemoFn m k);;; instantiate f (VInt k) (m_body mm) (m_ret mm)) (s <| cur_scope := m_scope mm |>))
-    as [[[n|]| |] s2]; simpl in *; intros i x Hi Hx; apply Hsub; eapply N; done.
+  destruct ((user_call;;; emit (EvMemoFn m k);;; instantiate f p (VInt k) (m_body mm) (m_ret mm)) (s <| cur_scope := m_scope mm |>))
+    as [[[n|]| |] s2]; simpl in *; intros i x Hi Hx; apply Hsub.
+  2-4: eapply N; done.
+  (* the collection at the end only clears liveness flags *)
+  rewrite list_lookup_imap in Hx. destruct (nodes s2 !! i) as [y|] eqn:Hy; [|done]. simpl in Hx.
+  assert (n_created_in x = n_created_in y) as -> by (case_bool_decide; by simplify_eq).
+  eapply N; done.
 Qed.
 
 (* a successful call is one of the two cases *)
-Lemma memo_call_ok_cases f m k s n s' :
-  memo_call (S f) m k s = (Ok n, s') ->
+Lemma memo_call_ok_cases f p m k s n s' :
+  memo_call (S f) p m k s = (Ok n, s') ->
   exists mm, memos s !! m = Some mm
     /\ ((s' = s /\ assoc_find k (m_table mm) = Some n /\ exists x, nodes s !! n = Some x /\ n_live x = true)
         \/ memo_miss s mm k).
@@ -189,37 +197,37 @@ Proof.
   - right. by exists x.
 Qed.
 
-Lemma memo_call_restores_scope f m k s n s' : memo_call (S f) m k s = (Ok n, s') -> cur_scope s' = cur_scope s.
+Lemma memo_call_restores_scope f p m k s n s' : memo_call (S f) p m k s = (Ok n, s') -> cur_scope s' = cur_scope s.
 Proof.
-  intros H. destruct (memo_call_ok_cases _ _ _ _ _ _ H) as (mm & Em & [(-> & _)|Hmiss]); [done|].
-  destruct (memo_call_miss _ _ _ _ _ _ _ Em Hmiss H) as (s1 & s2 & _ & _ & _ & _ & _ & ->). done.
+  intros H. destruct (memo_call_ok_cases _ _ _ _ _ _ _ H) as (mm & Em & [(-> & _)|Hmiss]); [done|].
+  destruct (memo_call_miss _ _ _ _ _ _ _ _ Em Hmiss H) as (s1 & s2 & _ & _ & _ & _ & _ & ->). done.
 Qed.
 
 (* after any successful call the key is bound to the returned node *)
-Lemma memo_call_binds_key f m k s n s' :
-  memo_call (S f) m k s = (Ok n, s') -> exists mm', memos s' !! m = Some mm' /\ assoc_find k (m_table mm') = Some n.
+Lemma memo_call_binds_key f p m k s n s' :
+  memo_call (S f) p m k s = (Ok n, s') -> exists mm', memos s' !! m = Some mm' /\ assoc_find k (m_table mm') = Some n.
 Proof.
-  intros H. destruct (memo_call_ok_cases _ _ _ _ _ _ H) as (mm & Em & [(-> & Ek & _)|Hmiss]); [by exists mm|].
-  destruct (memo_call_miss _ _ _ _ _ _ _ Em Hmiss H) as (s1 & s2 & Hc & He & Hn & Hm & Hi & ->). simpl.
-  pose proof (sc_instantiate f (VInt k) (m_body mm) (m_ret mm) s1) as Q. rewrite Hi in Q. destruct Q as (P&_). simpl in P.
+  intros H. destruct (memo_call_ok_cases _ _ _ _ _ _ _ H) as (mm & Em & [(-> & Ek & _)|Hmiss]); [by exists mm|].
+  destruct (memo_call_miss _ _ _ _ _ _ _ _ Em Hmiss H) as (s1 & s2 & Hc & He & Hn & Hm & Hi & ->). simpl.
+  pose proof (sc_instantiate f p (VInt k) (m_body mm) (m_ret mm) s1) as Q. rewrite Hi in Q. destruct Q as (P&_). simpl in P.
   assert (m < length (memos s2)) as Hlt.
   { apply prefix_length in P. unfold memo_scopes in P. rewrite !fmap_length, Hm in P. apply lookup_lt_Some in Em. lia. }
   destruct (lookup_lt_is_Some_2 _ _ Hlt) as [mm2 Hmm2].
   eexists. rewrite list_lookup_alter, Hmm2. split; [reflexivity|]. simpl. apply assoc_find_set.
 Qed.
 
-Lemma memo_call_twice f f' m k s n s' x :
-  memo_call (S f) m k s = (Ok n, s') -> nodes s' !! n = Some x -> n_live x = true ->
-  memo_call (S f') m k s' = (Ok n, s').
+Lemma memo_call_twice f f' p p' m k s n s' x :
+  memo_call (S f) p m k s = (Ok n, s') -> nodes s' !! n = Some x -> n_live x = true ->
+  memo_call (S f') p' m k s' = (Ok n, s').
 Proof.
-  intros H Hx Hl. destruct (memo_call_binds_key _ _ _ _ _ _ H) as (mm' & Em & Ek). by eapply memo_call_hit.
+  intros H Hx Hl. destruct (memo_call_binds_key _ _ _ _ _ _ _ H) as (mm' & Em & Ek). by eapply memo_call_hit.
 Qed.
 
-Lemma memo_call_top_scope fuel m k s :
+Lemma memo_call_top_scope fuel p m k s :
   Forall (fun mm => m_scope mm = STop) (memos s) ->
-  forall i x, length (nodes s) <= i -> nodes (memo_call fuel m k s).2 !! i = Some x -> n_created_in x = STop.
+  forall i x, length (nodes s) <= i -> nodes (memo_call fuel p m k s).2 !! i = Some x -> n_created_in x = STop.
 Proof.
-  intros Htop i x Hi Hx. pose proof (memo_call_new_nodes_scope fuel m k s i x Hi Hx) as Hin.
+  intros Htop i x Hi Hx. pose proof (memo_call_new_nodes_scope fuel p m k s i x Hi Hx) as Hin.
   unfold memo_scopes in Hin. apply elem_of_list_fmap in Hin as (mm & -> & Hmm).
   rewrite Forall_forall in Htop. apply Htop. by apply elem_of_list_In.
 Qed.
